@@ -177,6 +177,29 @@ def run(ctx):
     ctx.extra['sum_of_bounded_constant_sinks_bytes'] = total_const
     ctx.inst('T', 'sum', total_const <= (64 << 20), 'sum of bounded-constant sinks = %d bytes (must stay below the 64 MiB constant of the statement)'
              % total_const, None, key='LOAD|T|sum')
+    # ---------- T (cont.): copies.  A clone of something that owns heap memory duplicates data already in memory for a few input
+    # bytes (seed C12-r gave every linked cel its own copy of the source image: 60 links x 4 MB from a 6 KB file).  In the loader only
+    # reference-counted handles and plain small values are cloned
+    def plain(ty):
+        ty = ty.replace('std::', '').replace('option::', '').replace('sync::', '')
+        if ty.startswith(('Option<Arc<', 'Arc<', '&')) or ty in ('u8', 'u16', 'u32', 'u64', 'usize', 'i8', 'i16', 'i32', 'i64', 'isize', 'bool', 'char', '()'):
+            return True
+        a_ = fx.adts.get('asefile::' + ty.split('<')[0]) or fx.adts.get(ty.split('<')[0])
+        if a_ is not None and (a_.get('size') or 1 << 30) <= 32:
+            ftys = [f_['ty'] for v_ in a_.get('variants', []) for f_ in v_.get('fields', [])]
+            return not any(k_ in t_ for t_ in ftys for k_ in ('Vec<', 'String', 'HashMap', 'Box<', 'IntMap'))
+        return False
+    ncl = 0
+    for b in load:
+        for c in q.calls(b):
+            if q.callee_name(c).split('::')[-1] != 'clone' or 'Clone' not in (c.callee + str((c.fn or {}).get('res'))):
+                continue
+            ncl += 1
+            tys = (c.fn or {}).get('args') or ['?']
+            okc = plain(tys[0])
+            ctx.inst('T', '%s clone' % b.name.split('asefile::')[-1], okc, 'clone of %s in the loader: %s' % (tys[0], 'a handle or a plain small value' if okc else
+                     'a value that may own heap memory is duplicated - memory no input bytes stand for'), c.span, key=ctx.key(b.name, 'T', 'clone', tys[0]))
+    ctx.floor('clone calls in the LOAD cone', ncl, 3)
     # length checks that make the transient buffers "justified"
     iorules.take_bytes_length_check(ctx, 'T')
     # ---------- T (cont.): collect() into a plain collection reserves the iterator's lower size bound up front.  For a range over a
